@@ -160,3 +160,8 @@ def run(ctx):
         ps += own_panic_sites(g)
     ctx.ob("R4", "import_snapshot#no-explicit-panic", not ps,
            what="import_snapshot contains explicit panic sites %s" % [(p["kind"], p["line"]) for p in ps], where=im.loc())
+    # ---- R5 (= C16-R5b) the snapshot and log records are written and read field by field, unconditionally
+    from .c16 import serde_complete
+    serde_complete(ctx, P, "R5", ["grafeo_engine::database::Snapshot", "grafeo_engine::database::SnapshotNode",
+                                  "grafeo_engine::database::SnapshotEdge", "grafeo_common::types::value::Value",
+                                  "grafeo_adapters::storage::wal::record::WalRecord"])
